@@ -21,7 +21,7 @@ Print Assumptions C06_update_order.
 
 Theorem C06_valid_model_value : forall (Ctx : Type) (fm : list R -> Ctx -> option (list R)) (tm : list (R -> R))
   (data sig : list R) (w : @world R Ctx) (v m : list R),
-  fm (map2 (fun f x => f x) tm v) (other w) = Some m -> @chisq R RTNum data sig m <> 0 ->
+  fm (map2 (fun f x => f x) tm v) (other w) = Some m ->
   snd (@loglike R RTNum Ctx fm tm data sig w v) = Some (@gauss_loglike R RTNum data sig m).
 Proof. intros Ctx fm tm data sig. exact (valid_model_value fm tm data sig). Qed.
 Print Assumptions C06_valid_model_value.
